@@ -9,7 +9,7 @@
                 sequence of MaxSteps - Len(Warm) free events is printed exactly once. *)
 EXTENDS VrfRtc, VrfRtcDom, Json
 
-CONSTANTS MaxSteps, Exh, WarmName, Alpha, Defer, AddPath
+CONSTANTS MaxSteps, Exh, WarmName, Alpha, Defer, AddPath, Only
 
 VARIABLES hist
 gvars == <<cfg, up, ceOn, nin, cein, loc, vrfs, mem, wait, eor, deadline, now, hist>>
@@ -39,14 +39,19 @@ Warm == CASE WarmName = "none" -> <<>>
                                     VAnnE(VRoute("k1", {"rt1", "rt2"}, 1)), MAnnE(Mem(65000, "rt2", 0)), Ev("MEor")>>
 
 (* alphabets *)
-RtSets  == IF Alpha = "small" THEN {{}, {"rt1"}, {"rt1", "rt2"}, {"rt3"}} ELSE RtSetsAll
-Tags    == IF Alpha = "small" THEN {1} ELSE {1, 2}
-MemAs   == IF Alpha = "small" THEN {65000} ELSE {65000, 65009}
-MemRts  == IF Alpha = "small" THEN {"rt1", "rt2", "def"} ELSE RTs \cup {"def"}
+RtSets  == CASE Alpha = "small" -> {{}, {"rt1"}, {"rt1", "rt2"}, {"rt3"}}
+             [] Alpha = "coll"  -> {{"rt1"}, {"rt3"}}
+             [] OTHER -> RtSetsAll
+Small   == Alpha \in {"small", "coll"}
+Tags    == IF Small THEN {1} ELSE {1, 2}
+MemAs   == IF Small THEN {65000} ELSE {65000, 65009}
+MemRts  == IF Small THEN {"rt1", "rt2", "def"} ELSE RTs \cup {"def"}
 MemIds  == IF AddPath THEN {1, 2} ELSE {0}
-VrfPool == IF Alpha = "small" THEN {V1a, V2a} ELSE VrfPoolAll
-TickDs  == IF Alpha = "small" THEN {5} ELSE {1, 2, 5}
-KSlots  == IF Alpha = "small" THEN {"k1"} ELSE Slots
+VrfPool == IF Small THEN {V1a, V2a} ELSE VrfPoolAll
+TickDs  == IF Small THEN {5} ELSE {1, 2, 5}
+KSlots  == CASE Alpha = "small" -> {"k1"} [] Alpha = "coll" -> {"k1", "k3"} [] OTHER -> Slots
+(* Only: restriction of the free steps to some event kinds ({} = all kinds) *)
+On(k)   == Only = {} \/ k \in Only
 
 Pick(S)   == IF Exh THEN S ELSE {RandomElement(S)}
 Rarely(n) == Exh \/ RandomElement(1..n) = 1
@@ -70,26 +75,27 @@ Do(e) ==
     [] e.ev = "Tick"   -> PTick(e.d)
 
 Step(e) == Do(e) /\ hist' = Append(hist, e)
+FStep(e) == On(e.ev) /\ Step(e)
 
 Free ==
-  \/ \E p \in {"N1", "N2"} : Step(UpE(p))
-  \/ \E p \in {"N1", "N2"} : ~Exh /\ Rarely(6) /\ Step(DownE(p))
-  \/ Step(Ev("CeUp"))
-  \/ Rarely(4) /\ Step(Ev("CeDown"))
-  \/ \E k \in Pick(KSlots) : \E s \in Pick(RtSets) : \E v \in Pick(Tags) : Step(VAnnE(VRoute(k, s, v)))
-  \/ \E k \in Pick(KSlots) : \E s \in Pick(RtSets) : \E v \in Pick(Tags) : ~Exh /\ Step(VAnnE(VRoute(k, s, v)))
-  \/ \E k \in Pick(KSlots) : Step(VWdE(k))
-  \/ \E a \in Pick(MemAs) : \E t \in Pick(MemRts) : \E i \in Pick(MemIds) : Step(MAnnE(Mem(a, t, i)))
-  \/ \E a \in Pick(MemAs) : \E t \in Pick(MemRts) : \E i \in Pick(MemIds) : ~Exh /\ Step(MAnnE(Mem(a, t, i)))
-  \/ \E a \in Pick(MemAs) : \E t \in Pick(MemRts) : \E i \in Pick(MemIds) : Step(MWdE(Mem(a, t, i)))
-  \/ up["N1"] /\ (Exh \/ ~eor) /\ Step(Ev("MEor"))
-  \/ \E w \in Pick(VrfPool) : (Exh \/ ~HasVrf(w.name) \/ Rarely(4)) /\ Step(AddVrfE(w))
-  \/ \E n \in Pick({"v1", "v2"}) : Rarely(3) /\ Step(DelVrfE(n))
-  \/ \E v \in Pick(Tags) : Step(CeAnnE(v))
-  \/ Step(CeWdE)
-  \/ \E n \in Pick({"v1", "v2"}) : \E v \in Pick(Tags) : Step(ApiAddE(n, v))
-  \/ \E n \in Pick({"v1", "v2"}) : Step(ApiDelE(n))
-  \/ \E d \in Pick(TickDs) : (Exh \/ Waiting \/ Rarely(4)) /\ Step(TickE(d))
+  \/ \E p \in {"N1", "N2"} : FStep(UpE(p))
+  \/ \E p \in {"N1", "N2"} : ~Exh /\ Rarely(6) /\ FStep(DownE(p))
+  \/ FStep(Ev("CeUp"))
+  \/ Rarely(4) /\ FStep(Ev("CeDown"))
+  \/ \E k \in Pick(KSlots) : \E s \in Pick(RtSets) : \E v \in Pick(Tags) : FStep(VAnnE(VRoute(k, s, v)))
+  \/ \E k \in Pick(KSlots) : \E s \in Pick(RtSets) : \E v \in Pick(Tags) : ~Exh /\ FStep(VAnnE(VRoute(k, s, v)))
+  \/ \E k \in Pick(KSlots) : FStep(VWdE(k))
+  \/ \E a \in Pick(MemAs) : \E t \in Pick(MemRts) : \E i \in Pick(MemIds) : FStep(MAnnE(Mem(a, t, i)))
+  \/ \E a \in Pick(MemAs) : \E t \in Pick(MemRts) : \E i \in Pick(MemIds) : ~Exh /\ FStep(MAnnE(Mem(a, t, i)))
+  \/ \E a \in Pick(MemAs) : \E t \in Pick(MemRts) : \E i \in Pick(MemIds) : FStep(MWdE(Mem(a, t, i)))
+  \/ up["N1"] /\ (Exh \/ ~eor) /\ FStep(Ev("MEor"))
+  \/ \E w \in Pick(VrfPool) : (Exh \/ ~HasVrf(w.name) \/ Rarely(4)) /\ FStep(AddVrfE(w))
+  \/ \E n \in Pick({"v1", "v2"}) : Rarely(3) /\ FStep(DelVrfE(n))
+  \/ \E v \in Pick(Tags) : FStep(CeAnnE(v))
+  \/ FStep(CeWdE)
+  \/ \E n \in Pick({"v1", "v2"}) : \E v \in Pick(Tags) : FStep(ApiAddE(n, v))
+  \/ \E n \in Pick({"v1", "v2"}) : FStep(ApiDelE(n))
+  \/ \E d \in Pick(TickDs) : (Exh \/ Waiting \/ Rarely(4)) /\ FStep(TickE(d))
 
 GInit == PInit([defer |-> Defer, addpath |-> AddPath]) /\ hist = <<>>
 GNext == /\ Len(hist) < MaxSteps
